@@ -57,8 +57,10 @@ Definition derive_item (c : chan) (t : track) (seqIn tIn dur : Z) : res item :=
   if negb (ch_timeShift c =? 0) || negb (ch_seqShift c =? 0) then
     let tsIn := tr_tsOut t in
     do r1 <- (if negb (ch_timeShift c =? 0) then
-                do t1 <- (if negb (ch_mts c =? tsIn) then go_div "upload:div" (i64 (tIn * ch_mts c)) tsIn else Ok tIn);
-                do t3 <- go_div "upload:div" (i64 (i64 (t1 + ch_timeShift c) * tsIn)) (ch_mts c);   (* int64 product *)
+                (* rescaleTime (c479264): t * num / den with a 128-bit product, the identity for equal timescales *)
+                do t1 <- (if negb (ch_mts c =? tsIn) then go_div "upload:div" (tIn * ch_mts c) tsIn else Ok tIn);
+                do t3 <- (if negb (ch_mts c =? tsIn) then go_div "upload:div" ((t1 + ch_timeShift c) * tsIn) (ch_mts c)
+                          else Ok (t1 + ch_timeShift c));
                 Ok (t3, true)
               else Ok (tIn, false));
     do m <- go_div "upload:div" (ch_mdur c * tsIn) (ch_mts c);
